@@ -618,7 +618,8 @@ func (fr *frame) modularCall(fc *FuncContract, callee *ssa.Function, c *ssa.Call
 	}
 	envPost := &Env{vc: vc, fr: fr, pkg: pkgOf(callee), vars: postVars, varAddrs: addrs, st: st, old: pre, next0: pre.next, calleeScope: true, cbs: cbMap(fc)}
 	for _, en := range fc.Ensures {
-		if en.Local {
+		if en.Local || (!vc.logWrites && strings.Contains(en.Src, "wrote(")) {
+			// content-of-stream clauses are used only by callers whose own contract talks about stream content
 			continue
 		}
 		g := envPost.evalBool(en.E)
